@@ -7,7 +7,7 @@ import SlipVerif.Driver.Util
    sequence : L[<obj>,…] (list) | V[<obj>,…] (vector) | S[<obj>,…] (string, characters only)
               | O[<obj>,…] (octets, integers 0..255 only)
    function : car cdr char-code 1+ neg mod2 upcase evenp oddp plusp null consp eqto:<obj> ltthan:<int>
-              eq eql equal < <= > >= = char= char< sameparity + - cons list max
+              eq eql equal < <= > >= = char= char< sameparity dir10 + - cons list max
               seqcount:<obj> seqfind:<obj> seqposition:<obj> seqremove:<obj> seqmember:<obj> seqdedup
               seqreverse seqlength seqsum seqsubsetp seqsearch seqsameset seqsamecount:<obj> seqshorter
               (user lambdas that call sequence functions on elements that are lists)
@@ -130,6 +130,7 @@ def parseFn (s : String) : Option Fn :=
   | ["char="] => some .charEq
   | ["char<"] => some .charLt
   | ["sameparity"] => some .sameParity
+  | ["dir10"] => some .dir10
   | ["+"] => some .add
   | ["-"] => some .sub
   | ["cons"] => some .cons
@@ -496,7 +497,7 @@ where
       let r ← reqField fs "result" parseSeq
       let rl ← seqListOnly r
       match name with
-      | "union-check" => pure (.obj (ofBool (unionOk k.kw.eqv l1 l2 rl)))
+      | "union-check" => pure (.obj (ofBool (unionOk k.kw.eqv l1 l2 rl && unionTight k.kw.eqv l1 l2 rl)))
       | "intersection-check" => pure (.obj (ofBool (intersectionOk k.kw.eqv l1 l2 rl)))
       | _ => pure (.obj (ofBool (setDifferenceOk k.kw.eqv l1 l2 rl)))
   | "every" | "some" | "notany" | "notevery" | "mapcar" | "map" =>
